@@ -9,12 +9,12 @@
    SPECIFICATION's decoder (Spec.BlockSpec.spec_decode, written from
    doc/lz4_Block_format.md) to exactly the input.  For the fast-reset entry point the
    statement covers every context reachable by any history of such calls.
-   The composition with LZ4_decompress_safe is property C05's theorem (the real decoder
-   model refines spec_decode); the HC compressors are not modelled in Coq: for them
+   The composition with the model of LZ4_decompress_safe (C05's refinement theorem) gives the
+   property as stated (C01_compress_then_decompress_safe); the HC compressors are not modelled in Coq: for them
    C01 is decided by the direct oracle of the check only (see C01_hc_full_statement). *)
 From Coq Require Import ZArith List Lia Bool.
 From LZ4V Require Import Gen.Consts Spec.BlockSpec Model.Mem Model.Fast Model.FastApi
-     Proofs.FactorSpec Proofs.FastSound Proofs.FastApiSound.
+     Model.Dec Model.DecApi Proofs.FactorSpec Proofs.FastSound Proofs.FastApiSound Proofs.DecRefineApi Proofs.C01Compose.
 Import ListNotations.
 Local Open Scope Z_scope.
 
@@ -33,8 +33,11 @@ Theorem C01_fast_generic_roundtrip :
     (forall a, 0 <= vrd a < 256) -> 0 <= dictSize -> od <> FillOutput ->
     forall L, L <= startIndex ->
     (dd = CUsingDictCtx -> forall h, get dtable h + dictDelta < startIndex /\
-                                     good tt dd dictSmall startIndex dictSize (get dtable h + dictDelta)) ->
+                                     good3 tt dd dictSmall startIndex dictSize (get dtable h + dictDelta)) ->
     (dist_active tt = false -> startIndex + inputSize - MFLIMIT - hist_lo dd startIndex dictSize <= 65535) ->
+    0 <= startIndex ->
+    (tt = ByU16 -> mflimitPlusOne startIndex inputSize <= 65536
+                   \/ (dictSmall = true /\ 65536 <= startIndex - dictSize /\ L <= 0)) ->
     1 <= acceleration ->
     forall tab ss last consumed tab' hw,
     0 <= inputSize -> tab_ok tt dd dictSmall startIndex dictSize L (startIndex + 1) tab ->
@@ -79,6 +82,19 @@ Print Assumptions C01_fastReset_history.
 Theorem C01_initStream_ctx_ok : ctx_ok ctx_init.
 Proof. exact ctx_init_ok. Qed.
 Print Assumptions C01_initStream_ctx_ok.
+
+(* 5. The property as stated: LZ4_decompress_safe (decoder MODEL, fast loop on or off) on the c bytes
+      the compressor MODEL produced, with ANY capacity >= n, returns exactly n and reproduces the input.
+      [decodes_to (r, m, ok) D] := r = |D| /\ the destination holds D at [0,|D|). *)
+Theorem C01_compress_then_decompress_safe :
+  forall fastloop src n cap accel dcap m0,
+    src_ok src ->
+    let a := compress_fast_extState src n cap accel in
+    0 < a_ret a -> Z.of_nat (Z.to_nat n) <= dcap ->
+    decodes_to (decompress_safe fastloop (mem_of_list 0 (a_out a)) (a_ret a) dcap m0)
+               (load_list src 0 (Z.to_nat n)).
+Proof. exact compress_then_decompress_safe. Qed.
+Print Assumptions C01_compress_then_decompress_safe.
 
 (* Not proved (no Coq model of lz4hc.c): the same statement for LZ4_compress_HC and friends. *)
 Definition C01_hc_full_statement : Prop :=
